@@ -60,6 +60,7 @@ class State:
         self.locals = {}
         self.heap = {}
         self.pc = []
+        self.pcd = []       # parallel to pc: True for branch decisions, False for facts learned on the path
         self.axd = {}
         self.old = None
         self.ghost = {}
@@ -69,15 +70,17 @@ class State:
         s.locals = dict(self.locals)
         s.heap = dict(self.heap)
         s.pc = list(self.pc)
+        s.pcd = list(self.pcd)
         s.axd = dict(self.axd)
         s.old = self.old
         s.ghost = dict(self.ghost)
         return s
 
-    def assume(self, c):
+    def assume(self, c, decision=False):
         if z3.is_true(c):
             return
         self.pc.append(c)
+        self.pcd.append(decision)
 
     def add_axiom(self, key, ax):
         if key in self.axd:
@@ -89,6 +92,8 @@ class State:
 
     # ---------------- heap
     def h(self, key):
+        if self.eng.read_log is not None:
+            self.eng.read_log.add(key)
         if key in self.heap:
             return self.heap[key]
         return self.eng.initial_heap(key)
@@ -220,6 +225,7 @@ class Engine:
             self.class_ids[c] = i + 1
         self.ufs = {}
         self.cur = None
+        self.read_log = None
         self.site_counts = {}
         self.notes = []
 
